@@ -25,6 +25,23 @@ type c20Case struct {
 	// SlowCloseMs: the transport's Close takes this long (whoever closes the connection - possibly one of the
 	// library's own goroutines - is then still inside it when the final call is made)
 	SlowCloseMs int `json:"slow_close_ms,omitempty"`
+	// LateReadMs: the transport's Close returns at once but a Read that was pending only returns this much later (a
+	// connection whose in-flight I/O is slow to unwind): nothing of the library may still be running when the final call returned
+	LateReadMs int `json:"late_read_ms,omitempty"`
+}
+
+// lateReader delays the return of a failed (interrupted) Read.
+type lateReader struct {
+	*pipeEnd
+	d time.Duration
+}
+
+func (l lateReader) Read(p []byte) (int, error) {
+	n, err := l.pipeEnd.Read(p)
+	if err != nil {
+		time.Sleep(l.d)
+	}
+	return n, err
 }
 
 // slowCloser delays the transport's Close.
@@ -58,6 +75,10 @@ func libGoroutines() (int, string) {
 		} else if strings.Contains(g, "websocket.(*Conn).CloseRead.func") {
 			cnt++
 			which = append(which, "CloseRead")
+		} else if i := strings.Index(g, "created by nhooyr.io/websocket."); i >= 0 {
+			// any other goroutine started by library code
+			cnt++
+			which = append(which, strings.TrimSpace(strings.SplitN(g[i+len("created by nhooyr.io/websocket."):], "\n", 2)[0]))
 		}
 	}
 	return cnt, strings.Join(which, ",")
@@ -69,6 +90,9 @@ func runC20Case(cc c20Case) (string, string) {
 	var rwc io.ReadWriteCloser = a
 	if cc.SlowCloseMs > 0 {
 		rwc = slowCloser{a, time.Duration(cc.SlowCloseMs) * time.Millisecond}
+	}
+	if cc.LateReadMs > 0 {
+		rwc = lateReader{a, time.Duration(cc.LateReadMs) * time.Millisecond}
 	}
 	c := websocket.VerifNewConn(rwc, cc.Client, websocket.VerifCopts{}, 0)
 	peer := newRawPeer(b, !cc.Client)
@@ -205,6 +229,9 @@ func runC20Case(cc c20Case) (string, string) {
 		b.Close()
 		time.Sleep(5 * time.Millisecond)
 	}
+	if cc.LateReadMs > 0 {
+		time.Sleep(40 * time.Millisecond) // the reader of the history is blocked in the transport again
+	}
 	var err error
 	t0 := time.Now()
 	switch cc.Then {
@@ -309,6 +336,13 @@ func runC20(ctx *runCtx) {
 	cases = append(cases, c20Case{Client: false, Ops: []string{"closeread", "peer-chatty"}, End: "none", Then: "close", EchoDelayMs: -1})
 	if ctx.thorough() {
 		cases = append(cases, c20Case{Client: true, Ops: []string{"peer-chatty"}, End: "close-in-background", Then: "close", EchoDelayMs: -1})
+	}
+	// a Read in flight on another goroutine when the final call is made, over a transport whose pending Read is slow to
+	// come back: the final call may take that long, but nothing it started may outlive it
+	for _, client := range []bool{true, false} {
+		for _, t := range []string{"closenow", "close"} {
+			cases = append(cases, c20Case{Client: client, Ops: []string{"ping"}, End: "none", Then: t, LateReadMs: 400})
+		}
 	}
 	// Close with arguments that cannot be sent, as the first and only closing call
 	for _, t := range []string{"close-long-reason", "close-bad-code"} {
